@@ -94,6 +94,18 @@ var tInt = types.Typ[types.Int]
 var tBool = types.Typ[types.Bool]
 
 func (e *Env) boolTerm(n *Node) (string, []string) {
+	defer func() {
+		if r := recover(); r != nil {
+			if se, ok := r.(specErr); ok && !strings.Contains(se.msg, " [in: ") {
+				txt := n.String()
+				if len(txt) > 160 {
+					txt = txt[:160] + "…"
+				}
+				panic(specErr{se.msg + " [in: " + txt + "]"})
+			}
+			panic(r)
+		}
+	}()
 	sv := e.eval(n)
 	if e.v.smt.sortOf(sv.typ) != "Bool" {
 		e.fail("expression %s is not boolean", n)
@@ -332,6 +344,11 @@ func (e *Env) evalIdent(n *Node) specVal {
 	}
 	if body, ok := e.lets[name]; ok {
 		return e.eval(body)
+	}
+	if e.li != nil && !e.inOld {
+		if x, ok := e.li.names[name]; ok {
+			return specVal{t: e.fr.pureTerm(e.st, x, e.li), typ: x.Type(), st: e.st}
+		}
 	}
 	switch name {
 	case "true", "false":
@@ -686,6 +703,23 @@ func (e *Env) evalCall(n *Node) specVal {
 			q := fmt.Sprintf("a!q%d", v.smt.n)
 			return specVal{t: fmt.Sprintf("(forall ((%s Int)) (! (=> (< %s %s) (= (select %s %s) (select %s %s))) :pattern ((select %s %s))))",
 				q, q, v.alloc(e.old), v.heap(e.st, k), q, v.heap(e.old, k), q, v.heap(e.st, k), q), typ: tBool}
+		case "visited":
+			// visited(k): key k has been produced by the map range of the enclosing loop
+			if e.li == nil {
+				e.fail("visited() outside a loop invariant")
+			}
+			for _, in := range e.li.header.Instrs {
+				if nx, ok := in.(*ssa.Next); ok {
+					if rg, ok := nx.Iter.(*ssa.Range); ok {
+						mt := rg.X.Type().Underlying().(*types.Map)
+						ki := visitedKey(rg, mt)
+						v.ensureKey(ki)
+						k := e.eval(args[0])
+						return specVal{t: sel(v.heap(e.st, ki.Key), k.t), typ: tBool}
+					}
+				}
+			}
+			e.fail("visited(): the loop is not a map range")
 		case "clock":
 			return specVal{t: v.heap(e.st, v.ghostKey("clock", "Int")), typ: types.Typ[types.Int64]}
 		case "fresh":
@@ -740,6 +774,26 @@ func (e *Env) evalCall(n *Node) specVal {
 			rt := uf.result(v.eng)
 			f := v.smt.declareFun(uf.smtName, sorts, v.smt.sortOf(rt))
 			return specVal{t: app(f, ts...), typ: rt, st: e.st}
+		}
+	}
+	if fn.Kind == NSelect {
+		if p := isPkgIdent(e, fn.Args[0]); p != nil {
+			if sd, ok := v.eng.cs.Specs[fkey(p.Path(), fn.Name)]; ok {
+				if len(sd.Params) != len(args) {
+					e.fail("spec %s.%s expects %d arguments", p.Name(), fn.Name, len(sd.Params))
+				}
+				ne := *e
+				ne.bound = map[string]specVal{}
+				for i, prm := range sd.Params {
+					ne.bound[prm] = e.eval(args[i])
+				}
+				ne.lets = map[string]*Node{}
+				ne.pkg = p
+				ne.fr = nil
+				ne.li = nil
+				ne.depth++
+				return ne.eval(sd.Body)
+			}
 		}
 	}
 	e.fail("unknown spec function %s", fn)
